@@ -316,6 +316,7 @@ func main() {
 	writeIfChanged(filepath.Join(outDir, "Guards.lean"), guards)
 	// C09 (extract/lifecycle.go): never exits; a problem is recorded inside the generated file
 	writeIfChanged(filepath.Join(outDir, "Lifecycle.lean"), genLifecycle(repoRoot))
+	writeIfChanged(filepath.Join(outDir, "BindFacts.lean"), genBindFacts(repoRoot)) // C04 (extract/bindfacts.go): never exits
 	writeIfChanged(filepath.Join(outDir, "ConfigLoad.lean"), genConfigLoad(repoRoot)) // C14 (extract/configload.go): never exits
 	writeIfChanged(filepath.Join(outDir, "OpenAPIRanges.lean"), genOpenAPIRanges(repoRoot)) // C07 (extract/oaranges.go): never exits
 	// C15 / C17 (extract/compress.go, extract/gates.go, walker extract/mwskel.go): never exit either
